@@ -21,12 +21,6 @@ Reading choices (each one is the weakest reading the text allows):
 -/
 namespace ShootVerif.Cli
 
-/-- package-level type declarations of a file, in order -/
-def topSpecs : List Decl → List TSpec
-  | [] => []
-  | .types ss :: r => ss ++ topSpecs r
-  | _ :: r => topSpecs r
-
 /-- package-level type declarations with their file -/
 def declared : Pkg → List (String × TSpec)
   | [] => []
@@ -144,16 +138,13 @@ def meets : Outcome → SpecOut → Bool
 inductive Region where
   | WF
   | Out
-  | F_getgofile      -- a type parameter named like a selected type, declared in another file: output name varies run to run
   | F_star_noline    -- `-type=*` without a matching go:generate line: `.shoot<cmd>.go`
   | F_star_sep       -- `-type=* -sep`: every type gets the go:generate file's prefix (or none)
-  | F_rest_badname   -- rest: a missing / non-RestClient name gets an output file and no diagnostic
-  | F_enum_silent    -- enum: a missing / wrong-kind name next to a good one is skipped silently
   deriving DecidableEq, Repr
 
 def Region.str : Region → String
-  | .WF => "WF" | .Out => "Out" | .F_getgofile => "F_getgofile" | .F_star_noline => "F_star_noline"
-  | .F_star_sep => "F_star_sep" | .F_rest_badname => "F_rest_badname" | .F_enum_silent => "F_enum_silent"
+  | .WF => "WF" | .Out => "Out" | .F_star_noline => "F_star_noline"
+  | .F_star_sep => "F_star_sep"
 
 def noLocals : List Decl → Bool
   | [] => true
@@ -192,12 +183,6 @@ def validPkg (pkg : Pkg) : Bool :=
     && constTypesOK pkg
     && !((declared pkg).map (·.2.name)).contains ""          -- identifiers are not empty
 
-/-- every candidate of getGoFile is the declaring file -/
-def candsOK (pkg : Pkg) (n : String) : Bool :=
-  match cands n pkg with
-  | [] => (fileOf pkg n).isNone
-  | c => c.all (· == (fileOf pkg n).getD "")
-
 /-- enum: MakeData stops with a diagnostic for this name -/
 def enumFatal (pkg : Pkg) (n : String) : Bool :=
   match findDecl pkg n with
@@ -223,14 +208,7 @@ def region (cmd : Cmd) (pkg : Pkg) (fl : Flags) : Region :=
   | some (.named ns file) =>
     if !ns.Nodup then .Out
     else if fileMissing pkg file then .Out
-    else if !ns.all (candsOK pkg) then .F_getgofile
-    else
-      let bad := ns.filter (fun n => !good cmd pkg file n)
-      let inFile := allInFile pkg ns file
-      if bad.isEmpty then .WF
-      else if cmd == Cmd.rest && inFile then .F_rest_badname
-      else if cmd == Cmd.enum && inFile && !ns.any (enumFatal pkg) && ns.any (good cmd pkg file) then .F_enum_silent
-      else .WF
+    else .WF
   | some (.file f _) => if (pkg.map File.name).contains f then .WF else .Out
   | some (.star sep) =>
     let e := eligibleIn cmd pkg none
